@@ -35,12 +35,37 @@ def one(case, pl):
         res["policy_type"] = type(policy).__name__
         res["table"] = [[fj(x) for x in r] for r in np.array(policy)]
     res["psl"], res["pal"] = psl, pal
-    r = policy.evaluate_on(mdp)
-    res["V"] = [fj(r.state_value[s]) for s in sl]
-    res["Q"] = [[fj(r.action_value[s][a]) for a in al] for s in sl]
-    res["occ"] = [fj(r.state_occupancy[s]) for s in sl]
-    res["initial_value"] = fj(r.initial_value)
-    res["n_simulations"] = r.n_simulations
+
+    def evaluate(mdp_k):
+        sl_k, al_k = list(mdp_k.state_list), list(mdp_k.action_list)
+        try:
+            r = policy.evaluate_on(mdp_k)
+            return {"state_list": sl_k, "action_list": al_k,
+                    "V": [fj(r.state_value[s]) for s in sl_k],
+                    "Q": [[fj(r.action_value[s][a]) for a in al_k] for s in sl_k],
+                    "occ": [fj(r.state_occupancy[s]) for s in sl_k],
+                    "initial_value": fj(r.initial_value), "n_simulations": r.n_simulations}
+        except BaseException as e:
+            if isinstance(e, (KeyboardInterrupt, SystemExit)):
+                raise
+            return {"state_list": sl_k, "action_list": al_k, "error": type(e).__name__ + ": " + str(e)[:300]}
+
+    first = evaluate(mdp)
+    if "error" in first:
+        return {"error": first["error"]}
+    res.update(first)
+    # the SAME policy object evaluated again: on MDPs with the same dynamics whose state/action lists
+    # are ordered differently (same sets, so same sizes), and once more on the first MDP
+    evals = [first]
+    for step in case.get("reuse", []):
+        if step == "same":
+            evals.append(evaluate(mdp))
+            continue
+        m2 = build_mdp(case["mdp"])
+        m2._state_list = tuple(sorted(sl, key=lambda x: step["skeys"][x]))
+        m2._action_list = tuple(sorted(al, key=lambda x: step["akeys"][x]))
+        evals.append(evaluate(m2))
+    res["evals"] = evals
     return res
 
 
